@@ -41,8 +41,15 @@ def all_trees(max_n, alpha):
     return [t for n in range(1, max_n + 1) for s in shapes(n) for t in labelled(s, alpha)]
 
 
+# tree labels are tokens: a plain name, or name + '_' + str(params) for a node with params - the token is
+# what description() renders after the 'n_' prefix, so distinct tokens <=> distinct (name, params)
+LABELS = {'a': ('a', None), 'b': ('b', None), 'c': ('c', None),
+          "a_{'k': 1}": ('a', {'k': 1}), "a_{'k': 2}": ('a', {'k': 2})}
+
+
 def build_tree_node(t):
-    return OptNode({'name': t[0]}, nodes_from=[build_tree_node(c) for c in t[1]])
+    name, params = LABELS[t[0]]
+    return OptNode(content_of(name, params), nodes_from=[build_tree_node(c) for c in t[1]])
 
 
 def build_tree(t):
@@ -112,12 +119,22 @@ def tree_preamble(trees):
 
 
 def run_tree_pool(ctx, group, trees, workers=1, canary=True):
-    graphs = [build_tree(t) for t in trees]
+    roots = [build_tree_node(t) for t in trees]
+    graphs = [OptGraph(r) for r in roots]
+    for t, g in zip(trees, graphs):      # == and descriptive_id are total on trees
+        try:
+            g.descriptive_id, g == g, g == graphs[0]
+        except Exception as ex:
+            ctx.count(group, key=('tree', t), nontrivial=True, raised=True)
+            ctx.violate(group, {'kind': 'tree-pair', 't1': tree_json(t), 't2': tree_json(trees[0]),
+                                'raised': '%s: %s' % (type(ex).__name__, ex)}, '== or descriptive_id raised on a tree')
+            return [], []
     ids = [g.descriptive_id for g in graphs]
-    # the root node's own identifier must be the graph's
-    for g, s in zip(graphs, ids):
-        if g.root_node.descriptive_id != s:
-            ctx.violate(group, {'tree': None}, 'root node id differs from graph id')
+    # the root node's own identifier is the graph's (a disagreement with the model: agree_tree checks both)
+    for t, r, s in zip(trees, roots, ids):
+        if r.descriptive_id != s:
+            ctx.disagree(group, {'kind': 'tree-pair', 't1': tree_json(t), 't2': tree_json(t)},
+                         'the identifier of the root node differs from the identifier of the tree graph')
     rows = eq_rows(trees, graphs, workers)
     by_id = {}
     for j, s in enumerate(ids):
@@ -219,17 +236,37 @@ def build(spec, order, how):
 
 
 def snapshot(g):
-    """the model's input, read back from the real object"""
+    """the model's input, read back from the real object.  uids are renamed to short tokens in an
+    order-preserving way (only their relative order inside one graph is observable) unless some label is
+    derived from a uid (empty name)"""
     pos = {id(n): i for i, n in enumerate(g.nodes)}
+    if any(n.name == '' for n in g.nodes):
+        ren = {n.uid: n.uid for n in g.nodes}
+    else:
+        ren = {u: 'u%02d' % k for k, u in enumerate(sorted({n.uid for n in g.nodes}))}
     out = []
     for n in g.nodes:
         pr = n.parameters
-        out.append([n.uid, n.name, str(pr) if pr else '', [pos[id(p)] for p in n.nodes_from]])
+        out.append([ren[n.uid], n.name, str(pr) if pr else '', [pos[id(p)] for p in n.nodes_from]])
     return out
 
 
+# strings of the dag group are printed as byte lists (elaborated ~2.5x faster than string literals)
+PRE_BS = """From Coq Require Import Strings.Byte.
+Inductive bstr := BS (l : list Byte.byte).
+Definition unBS (b : bstr) := match b with BS l => l end.
+Declare Scope bs_scope. Delimit Scope bs_scope with bs.
+String Notation bstr BS unBS : bs_scope.
+Definition s_ (b : bstr) : string := string_of_list_byte (unBS b).
+"""
+
+
+def c_bs(s):
+    return '(s_ %s%%bs)' % c_str(s)[:-len('%string')]
+
+
 def dg_coq(snap):
-    return c_list(['(mk_node %s %s %s %s)' % (c_str(u), c_str(nm), c_str(pr), c_list(map(c_nat, ps), 'nat'))
+    return c_list(['(mk_node %s %s %s %s)' % (c_bs(u), c_bs(nm), c_bs(pr), c_list(map(c_nat, ps), 'nat'))
                    for u, nm, pr, ps in snap], 'node')
 
 
@@ -241,8 +278,8 @@ def observe(g):
 
 def gobs_coq(o):
     return ('{| o_gid := %s; o_nids := %s; o_refl := %s; o_copy_eq := %s; o_copy_eq\' := %s; o_copy_gid := %s |}'
-            % (c_str(o['gid']), c_list(map(c_str, o['nids']), 'string'), c_bool(o['refl']), c_bool(o['copy_eq']),
-               c_bool(o['copy_eq2']), c_str(o['copy_gid'])))
+            % (c_bs(o['gid']), c_list(map(c_bs, o['nids']), 'string'), c_bool(o['refl']), c_bool(o['copy_eq']),
+               c_bool(o['copy_eq2']), c_bs(o['copy_gid'])))
 
 
 def variant(rng, spec, base_graph, base_nodes):
@@ -325,9 +362,15 @@ def observe_triple(g1, g2, g3):
 
 
 def triple_case(g1, g2, g3, f12, f23):
+    """(Coq term, json case); the term is None when == / descriptive_id raised (reported as a violation:
+    the property makes them total on these inputs)"""
     s1, s2, s3 = snapshot(g1), snapshot(g2), snapshot(g3)
-    o1, o2, o3 = observe(g1), observe(g2), observe(g3)
-    e = observe_triple(g1, g2, g3)
+    try:
+        o1, o2, o3 = observe(g1), observe(g2), observe(g3)
+        e = observe_triple(g1, g2, g3)
+    except Exception as ex:
+        return None, {'kind': 'dag-triple', 'g1': s1, 'g2': s2, 'g3': s3, 'f12': f12, 'f23': f23,
+                      'raised': '%s: %s' % (type(ex).__name__, ex)}
     term = '(%s, %s, %s, %s, %s, %s, %s, %s, %s)' % (
         dg_coq(s1), dg_coq(s2), dg_coq(s3), c_list(map(c_nat, f12), 'nat'), c_list(map(c_nat, f23), 'nat'),
         gobs_coq(o1), gobs_coq(o2), gobs_coq(o3), eqs_coq(e))
@@ -409,6 +452,10 @@ def run_dags(ctx, n_triples):
             claim23 = False
         term, case = triple_case(g1, g2, g3, f12, f23)
         case.update({'flavour': flavour, 'how2': how2, 'how3': how3})
+        if term is None:
+            ctx.count('dags', key=repr(case['g1']), nontrivial=True, flavour=flavour, raised=True)
+            ctx.violate('dags', case, '== or descriptive_id raised ' + case['raised'])
+            continue
         cases.append(term)
         meta.append((case, claim12, claim23, flavour, how2, how3, len(spec), single, params_on))
     # canary: an isomorphic pair reported as unequal
@@ -424,7 +471,7 @@ def run_dags(ctx, n_triples):
         dg_coq(s1), dg_coq(s2), dg_coq(s2), c_list(map(c_nat, f12), 'nat'), c_list(map(c_nat, [0, 1, 2]), 'nat'),
         gobs_coq(o1), gobs_coq(o2), gobs_coq(o2), eqs_coq(e)))
     ctx.canaries += 1
-    res = ctx.coq_cases('dags', REQ, DAG_FN, cases, 4, shard=ctx.pick(110, 300))
+    res = ctx.coq_cases('dags', REQ, DAG_FN, cases, 4, shard=ctx.pick(110, 300), preamble=PRE_BS)
     if res[-1][:2] == (False, False):
         ctx.canaries_caught += 1
     for (case, claim12, claim23, flavour, how2, how3, n, single, params_on), (ag, ho, i12, i23) in zip(meta, res[:-1]):
@@ -451,8 +498,9 @@ def run_dags(ctx, n_triples):
 
 
 def run(ctx):
-    ctx.rule = ('(a) trees: every ordered pair of labelled plane trees (quick: <=5 nodes over {a,b}; thorough: <=6 '
-                'nodes over {a,b} and <=4 nodes over {a,b,c}); one evaluation = one ordered pair (real == called); '
+    ctx.rule = ('(a) trees: every ordered pair of labelled plane trees (quick: <=5 nodes over {a,b} and <=3 nodes over 4 '
+                'labels two of which differ in params only; thorough: <=6 nodes over {a,b}, <=4 nodes over {a,b,c} '
+                'and <=4 nodes over the 4 labels); one evaluation = one ordered pair (real == called); '
                 'distinct non-trivial = distinct tree with >=2 nodes (row of the pair matrix).  (b) dags: triples '
                 '(g1, presentation g2 of g1 [deepcopy / relisted / parents reordered / rebuilt with fresh uids], '
                 'g3 = another presentation or a near-miss mutation); one evaluation = one unordered pair of the '
@@ -470,11 +518,16 @@ def run(ctx):
         trees = all_trees(6, 'ab')
     ids, rows = run_tree_pool(ctx, 'trees', trees, workers=6 if ctx.tier == 'thorough' else 1)
     ctx.set_exhaustive('trees', True)
+    # labels that differ in params only / in name only
+    alpha = ['a', 'b', "a_{'k': 1}", "a_{'k': 2}"]
+    run_tree_pool(ctx, 'trees-params', all_trees(ctx.pick(3, 4), alpha), workers=ctx.pick(1, 6))
+    ctx.set_exhaustive('trees-params', True)
     if ctx.tier == 'thorough':
         run_tree_pool(ctx, 'trees3', all_trees(4, 'abc'), workers=1)
         ctx.set_exhaustive('trees3', True)
     k = len(trees) - 7
-    ctx.sample({'group': 'trees', 'tree': tree_json(trees[k]), 'observed_id': ids[k],
+    if ids:
+        ctx.sample({'group': 'trees', 'tree': tree_json(trees[k]), 'observed_id': ids[k],
                 'equal_to': [tree_json(trees[j]) for j in rows[k][:4]], 'n_equal': len(rows[k])})
     # ---- (b)
     run_dags(ctx, ctx.budget(1700, 36000))
@@ -492,8 +545,11 @@ def replay(ctx, payload):
     elif case.get('kind') == 'dag-triple':
         g1, g2, g3 = (graph_from_snapshot(case[k]) for k in ('g1', 'g2', 'g3'))
         term, c = triple_case(g1, g2, g3, case['f12'], case['f23'])
-        res = ctx.coq_cases('replay', REQ, DAG_FN, [term], 4)
         ctx.count('replay', key=repr(c['g1']), nontrivial=True)
+        if term is None:
+            ctx.violate('replay', c, '== or descriptive_id raised ' + c['raised'])
+            return
+        res = ctx.coq_cases('replay', REQ, DAG_FN, [term], 4, preamble=PRE_BS)
         if not res[0][1]:
             ctx.violate('replay', c, 'isomorphic presentations compare unequal / get different identifiers, or '
                                      'equality is not an equivalence / deep copy differs')
